@@ -114,7 +114,7 @@ Print Assumptions crc_field_byte_change_detected.
 (* ------------------------------------------------------------------ *)
 (* refusals                                                             *)
 
-(* every refusal condition of the property: refused, by one of the five checks,
+(* every refusal condition of the property: refused, by one of the checks,
    and no mutating step was executed *)
 Theorem import_refused_when : forall inp,
   refusal_condition inp ->
@@ -122,7 +122,7 @@ Theorem import_refused_when : forall inp,
 Proof. exact import_refused_when_proved. Qed.
 Print Assumptions import_refused_when.
 
-(* structure of the program: each of the five checks occurs before the first
+(* structure of the program: each of the checks occurs before the first
    mutating step and its failure ends ImportSnapshot *)
 Theorem checks_before_mutations : forall o, is_check o = true ->
   In o (before_first_mutation import_prog) /\ op_guard o = true.
@@ -130,7 +130,7 @@ Proof. exact checks_before_mutations_proved. Qed.
 Print Assumptions checks_before_mutations.
 
 (* whatever the inputs and the I/O failures: if any mutating step was executed
-   then all five checks had passed *)
+   then all the checks had passed *)
 Theorem refusal_precedes_any_mutation : forall inp tr out,
   import_run inp = (tr, out) ->
   forall o, In o tr -> mutating o = true -> exists old, all_checks_pass inp old.
@@ -142,7 +142,7 @@ Print Assumptions refusal_precedes_any_mutation.
 Theorem import_succeeds_when : forall inp old,
   all_checks_pass inp old -> in_env_fail inp = [] ->
   import_run inp =
-    ([OCheckSettings; OLocate; OReadMeta; OCheckComplete; OCheckMembers; ONewEnv;
+    ([OCheckSettings; OLocate; OReadMeta; OCheckComplete; OCheckExtFiles; OCheckMembers; ONewEnv;
       OCreateNodeHostDir; OOpenLogDB; OCheckNodeHostDir;
       if in_ssdir_exists inp then OCleanup else OCreateSSDir;
       OCreateTemp; OProcess; OCopy; OFinalize; OLogDBImport],
@@ -155,6 +155,7 @@ Theorem checks_pass_iff_no_refusal_condition : forall inp old,
   in_src_exists inp = true -> (exists f, snapshot_files (in_entries inp) = [f]) ->
   in_meta inp = MetaOk old ->
   payload_checksum (in_file inp) = CkOk (s_checksum old) ->
+  (forall f, In f (s_files old) -> ext_file_present (in_entries inp) f = true) ->
   (forall id a, In (id, a) (in_members inp) -> ~ bad_member (s_membership old) id a) ->
   all_checks_pass inp old.
 Proof. exact checks_pass_when. Qed.
@@ -217,9 +218,11 @@ Definition ex_file : bytes := repeat 0 1024 ++ [10; 20; 30] ++ [1; 2; 3; 4] ++ r
 Definition ex_sum : bytes := match payload_checksum ex_file with CkOk s => s | _ => [] end.
 Definition ex_old : snapshot :=
   mkSS [47; 120; 47; 115; 46; 103; 98; 115; 110; 97; 112] 1047 100 5
-       (mkM 90 [(1, [97]); (2, [98])] [(3, [99])] [] [7]) [] ex_sum false 1 sm_regular false 0 false.
+       (mkM 90 [(1, [97]); (2, [98])] [(3, [99])] [] [7]) [mkSF [47; 120; 47; 101; 120; 116] 9 1 []]
+       ex_sum false 1 sm_regular false 0 false.
 Definition ex_inp (members : amap) : input :=
-  mkIn [97] members 1 true [([115; 46; 103; 98; 115; 110; 97; 112], false); ([109], false)]
+  mkIn [97] members 1 true [mkDE [115; 46; 103; 98; 115; 110; 97; 112] false 1047; mkDE [109] false 50;
+                             mkDE [101; 120; 116] false 9]
        (MetaOk ex_old) ex_file true [47; 100] [].
 
 Example import_witness :
@@ -229,7 +232,8 @@ Example import_witness :
      s_membership ss = mkM 100 [(1, [97]); (4, [100])] [] [] [2; 3; 7]) /\
   (* re-admitting the removed replica 7 / the non-voting replica 3 / moving 2 / leaving out 1 *)
   import_run (ex_inp [(1, [97]); (7, [100])]) =
-    ([OCheckSettings; OLocate; OReadMeta; OCheckComplete; OCheckMembers], Refused (RMembers EAddingRemoved)) /\
+    ([OCheckSettings; OLocate; OReadMeta; OCheckComplete; OCheckExtFiles; OCheckMembers],
+     Refused (RMembers EAddingRemoved)) /\
   snd (import_run (ex_inp [(1, [97]); (3, [99])])) = Refused (RMembers ENonVotingAsRegular) /\
   snd (import_run (ex_inp [(1, [97]); (2, [100])])) = Refused (RMembers EAddrChanged) /\
   import_run (ex_inp [(4, [100])]) = ([OCheckSettings], Refused (RInvalidMembers SettingsNotListed)) /\
